@@ -457,6 +457,44 @@ fn table_2d(args: &Args, ev: &mut Ev, full: bool) {
             }
         }
     }
+    // x and y as two views of one table (same first element, strides 1 and 2): validity must be
+    // judged per axis, whatever the aliasing
+    let mut rng = Rng::derive(11, "C10-alias", &[0]);
+    for k in 0..(if full { 3000 } else { 400 }) {
+        case += 1;
+        if let Some(only) = args.only {
+            if only != case {
+                continue;
+            }
+        }
+        let (nx, ny) = (2 + rng.below(5), 2 + rng.below(4));
+        let table = vh::cases::gen_alias_table::<f64>(&mut rng, nx, ny, true);
+        let rank3 = k % 2 == 0;
+        let shape: Vec<usize> = if rank3 { vec![nx, ny, 2] } else { vec![nx, ny] };
+        let mut spec = Spec2::new(mk_data(&shape, 0), None, None, Strat2::Bilinear { extrapolate: false })
+            .aliased_axes(Array1::from(table.clone()), nx, ny);
+        spec.dynamic = !rank3 || k % 4 == 0;
+        let mut v = Violated::default();
+        if !strictly_increasing(&spec.axis_x()) {
+            v.add("axis-order: x not strictly increasing", &["Monotonic"]);
+        }
+        if !strictly_increasing(&spec.axis_y()) {
+            v.add("axis-order: y not strictly increasing", &["Monotonic"]);
+        }
+        let what = format!("2-D Bilinear aliased axes: table {:?}, x = table[..{nx}], y = table[..;2] ({ny} values)", table);
+        ev.case(vh::rng::fnv(what.as_bytes()), true);
+        ev.count("strategy", "Bilinear");
+        ev.count("rank", "2d-aliased-axes");
+        let replay = spec2_json(&spec).set("alias_table", J::arr(table.iter().map(|t| J::Num(*t)).collect::<Vec<_>>()));
+        let mut outcome: Option<Outcome<()>> = None;
+        f64::with2(&spec, &mut |b| match b {
+            Built2::Interp(_) => outcome = Some(Outcome::Ok(())),
+            Built2::Fail(o) => outcome = Some(o),
+            Built2::CtorOnly(o) => outcome = Some(o),
+        });
+        Mon { ev, case }.judge(&what, &v, &outcome.unwrap(), &replay);
+        ev.add("aliased_axes_rows", 1);
+    }
     ev.add("rows_2d", case - 1_000_000);
 }
 
